@@ -215,8 +215,8 @@ fn @name@() {
         alpha_shapes = [(f0, f0, False, True), (f1, f1, True, False), (f2, rot[(seed + 1) % 7], False, False)]
     else:
         alpha_shapes = [(f, f, ic, iu) for f in range(n) for (ic, iu) in [(False, False), (False, True)]]
-        alpha_shapes += [(f, f, True, iu) for f in per_node for iu in (False, True)]
-        alpha_shapes += [(f, g, False, False) for f in per_node for g in per_node if f != g]
+        alpha_shapes += [(f, f, True, False) for f in per_node]
+        alpha_shapes += [(f, per_node[(i + 1) % len(per_node)], False, False) for i, f in enumerate(per_node)]
     for (f, g, ic, iu) in alpha_shapes:
         nm = "c04_alpha_%02d%s_to_%02d%s" % (f, "i" if ic else "", g, "i" if iu else "")
         hs.append(G.H(nm, "alpha-capture-apply", "subrule", G.T(HDR + """
